@@ -540,4 +540,56 @@ pub mod vx_export {
         }
         Ok(bad)
     }
+
+    /// C04 (BOUNDED end-to-end cross-check): one 5-epoch history (new labels, updates, a publish that only re-submits current values,
+    /// a batch that names one label twice with different values); after every publish, every pair 0 <= s < e <= current is audited
+    /// against the published hashes, and ranges with s >= e or e > current must be refused. Returns the list of what went wrong.
+    pub async fn c04_all_ranges<TC: Configuration>(parallel: bool) -> Result<Vec<String>, AkdError> {
+        let par = if parallel { AzksParallelismConfig::default() } else { AzksParallelismConfig::disabled() };
+        let dir = Directory::<TC, _, _>::new(StorageManager::new_no_cache(AsyncInMemoryDatabase::new()), HardCodedAkdVRF {}, par).await?;
+        let kv = |k: &str, v: &str| (AkdLabel::from(k), AkdValue::from(v));
+        let batches: Vec<Vec<(AkdLabel, AkdValue)>> = vec![
+            vec![kv("a", "1"), kv("b", "1"), kv("c", "1")],
+            vec![kv("a", "2"), kv("d", "1")],
+            vec![kv("a", "2"), kv("d", "1")],                 // nothing changes: no new epoch
+            vec![kv("e", "1"), kv("e", "2"), kv("f", "1")],   // one label twice: must be refused without effect
+            vec![kv("b", "2"), kv("g", "1"), kv("h", "1")],
+            vec![kv("a", "3")],
+        ];
+        let mut bad = vec![];
+        let mut hashes = vec![dir.get_epoch_hash().await?.hash()];
+        for (i, b) in batches.into_iter().enumerate() {
+            let before = dir.get_epoch_hash().await?;
+            let r = dir.publish(b).await;
+            let after = dir.get_epoch_hash().await?;
+            match (i, &r) {
+                (3, Ok(_)) => bad.push("a batch naming the label e twice (different values) was accepted".to_string()),
+                (3, Err(_)) => if after.epoch() != before.epoch() || after.hash() != before.hash() { bad.push("the refused batch changed the directory".to_string()) },
+                (2, Ok(eh)) => if eh.epoch() != before.epoch() { bad.push("re-submitting current values created an epoch".to_string()) },
+                (_, Err(e)) => bad.push(format!("publish #{i} failed: {e}")),
+                _ => {}
+            }
+            if after.epoch() as usize == hashes.len() { hashes.push(after.hash()); }
+            let cur = after.epoch();
+            for s in 0..=cur + 1 {
+                for e in 0..=cur + 1 {
+                    let res = dir.audit(s, e).await;
+                    if s < e && e <= cur {
+                        match res {
+                            Ok(proof) => {
+                                let hs: Vec<_> = hashes[s as usize..=e as usize].to_vec();
+                                if let Err(err) = crate::auditor::audit_verify::<TC>(hs, proof).await {
+                                    bad.push(format!("after publish #{i} (epoch {cur}): the append-only proof for ({s}, {e}) does not verify against the published hashes: {err}"));
+                                }
+                            }
+                            Err(err) => bad.push(format!("after publish #{i} (epoch {cur}): no append-only proof for ({s}, {e}): {err}")),
+                        }
+                    } else if res.is_ok() {
+                        bad.push(format!("after publish #{i} (epoch {cur}): the range ({s}, {e}) was not refused"));
+                    }
+                }
+            }
+        }
+        Ok(bad)
+    }
 }
